@@ -257,6 +257,22 @@ func TestC17(t *testing.T) {
 				body.ExpirationPolicy = &pubsubpb.ExpirationPolicy{Ttl: durationpb.New(newTTL)}
 				newRet := pickDur(r)
 				body.MessageRetentionDuration = durationpb.New(newRet)
+				// "back to the default": the field named in the mask is absent from
+				// the body, or carries an explicit zero
+				switch r.Intn(8) {
+				case 0:
+					body.ExpirationPolicy, newTTL = nil, 30*24*time.Hour
+				case 1:
+					body.ExpirationPolicy, newTTL = &pubsubpb.ExpirationPolicy{}, 30*24*time.Hour
+				case 2:
+					body.ExpirationPolicy, newTTL = &pubsubpb.ExpirationPolicy{Ttl: durationpb.New(0)}, 30*24*time.Hour
+				}
+				switch r.Intn(6) {
+				case 0:
+					body.MessageRetentionDuration, newRet = nil, 7*24*time.Hour
+				case 1:
+					body.MessageRetentionDuration, newRet = durationpb.New(0), 7*24*time.Hour
+				}
 				body.EnableMessageOrdering = r.Intn(2) == 0
 				var nMin, nMax *time.Duration
 				switch r.Intn(4) {
